@@ -247,12 +247,21 @@ impl<'env> Executor<'env> {
 
         macro_rules! recurse_loop {
             ($capture:expr, $loop_object:expr) => {{
-                let Some(jump_target) = $loop_object.recurse_jump_target else {
+                let Some((jump_target, loop_instructions)) = $loop_object.recurse_jump_target
+                else {
                     bail!(Error::new(
                         ErrorKind::InvalidOperation,
                         "cannot recurse outside of recursive loop",
                     ))
                 };
+                // the jump target is only meaningful in the instructions the
+                // loop was compiled into, not in a block or an included template.
+                if loop_instructions != state.instructions as *const Instructions<'_> as usize {
+                    bail!(Error::new(
+                        ErrorKind::InvalidOperation,
+                        "cannot recurse from a block or an included template",
+                    ))
+                }
                 // the way this works is that we remember the next instruction
                 // as loop exit jump target.  Whenever a loop is pushed, it
                 // memorizes the value in `next_loop_iteration_jump` to jump
@@ -1147,7 +1156,8 @@ impl<'env> Executor<'env> {
                 iter,
                 depth,
                 flags & LOOP_FLAG_WITH_LOOP_VAR != 0,
-                (flags & LOOP_FLAG_RECURSIVE != 0).then_some(pc),
+                (flags & LOOP_FLAG_RECURSIVE != 0)
+                    .then_some((pc, state.instructions as *const Instructions<'_> as usize)),
                 current_recursion_jump,
             )),
             ..Frame::default()
